@@ -41,7 +41,7 @@ PROPS = {
              views=('winIds', 'utStatus', 'nrWinning'), coq=('Proofs/Guaranteed.v', 'Proofs/GuaranteedLoop.v', 'Proofs/Resume2.v', 'Proofs/Resume4.v')),
     'C12': P('W + R = K through allocation / blacklist / un-blacklist; no wrap; leftovers',
              eps=('addTickets', 'blacklist', 'refund', 'unblacklist', 'deposit', 'extra'), cats=('status', 'panic', 'wrap'),
-             rng=True, views=('nrWinning',), coq=('Proofs/Reserve.v', 'Proofs/Leftover.v'),
+             rng=True, views=('nrWinning',), coq=('Proofs/Reserve.v', 'Proofs/Leftover.v', 'Proofs/SetupVested.v'),
              gentable=('const_staking_gt1', 'const_migration_gt1', 'const_staking_mig', 'const_migration_mig', 'overflow_checks_all')),
     'C13': P('vesting: cumulative formula, monotone, bounded, ends at 100%; schedule acceptance',
              eps=('setSchedule1', 'setSchedule2', 'claim'), cats=('status', 'bal', 'panic', 'wrap'),
